@@ -6,6 +6,9 @@
 #include "nodes/variable/array.h"
 #include "nodes/functions/procedure.h"
 #include "nodes/loop/control.h"
+#ifdef PSEUDOENGINE2_VERIF
+#include "verif.h"
+#endif
 
 ProcedureNode::ProcedureNode(
     const Token &token,
@@ -131,6 +134,9 @@ std::unique_ptr<NodeResult> CallNode::evaluate(PSC::Context &ctx) {
     }
 
     ctx.switchToken = &token;
+#ifdef PSEUDOENGINE2_VERIF
+    PE2Verif::CallGuard verifCallGuard(token, ctx);
+#endif
     try {
         procedure->run(*procedureCtx);
     } catch (BreakErrSignal &e) {
